@@ -17,6 +17,15 @@ def _violations_for(prop, rr):
     return [v for v in rr.violations if prop in v.props]
 
 
+DEADLINE = None  # set by the worker: optional twins of a run are not started after it
+
+
+def _late():
+    import time
+
+    return DEADLINE is not None and time.time() > DEADLINE
+
+
 def run_seed(prop, seed, tier, profile=None, overrides=None):
     """One simulated run (plus twins where the property is relational).
     Returns (record dict, RunResult)."""
@@ -70,7 +79,7 @@ def run_seed(prop, seed, tier, profile=None, overrides=None):
             vj["twin"] = {"a": "interleaved", "b": "solo"}
             vj["twin_prior"] = _prior(a, sid) + _prior(b, sid)
             rec["violations"].append(vj)
-        else:
+        elif not _late():
             p, f = twins.c15_more_twins(cfg_json, rr.recipes, client=0)
             twin_steps += 2 * len(sids)
             for other, name in ((p, "poison-prefix-twin"), (f, "fresh-object-twin")):
@@ -83,7 +92,7 @@ def run_seed(prop, seed, tier, profile=None, overrides=None):
                     rec["violations"].append(vj)
                     break
             else:
-                vj, n = _history_twin_violation(cfg_json, rr.recipes, [x for x in rr.violations])
+                vj, n = (None, 0) if _late() else _history_twin_violation(cfg_json, rr.recipes, [x for x in rr.violations])
                 twin_steps += n
                 if vj is not None:
                     rec["violations"].append(vj)
